@@ -97,6 +97,46 @@ def kernel_rules(ctx, ty, coef_fields, id_fields, init_kind):
     restr = sorted({x.item for x in si.call_objs if x.item in RESTRICTING and 'Iterator' in (x.trait or '')})
     ctx.check(not restr, R + '.every-term/%s/all-terms' % short, 'T-LOOPMUST', body.name, 'term iterator is restricted by %s' % restr, body.site(nextc.bb))
     ctx.check(all(body.dominates(header, e) for e in body.strict_ok_exits()), R + '.every-term/%s/dominates' % short, 'T-MUSTCALL', body.name, 'term loop does not dominate the Ok-exit', body.site(nextc.bb))
+    # ---- the loops iterate the message's own term / id lists directly (no filtered, de-duplicated or re-ordered copy)
+    ITERISH = re.compile(r'::(into_iter|iter|deref|as_ref|as_slice|borrow)(::<.*>)?$')
+    next_dsts = {l[0].dst['l'] for l in loops}
+    for l in loops:
+        srcs = [l[0].args[0]]
+        # multizip / zip of several iterators: check each component
+        sx = T.expr(body, l[0].args[0], depth=10)
+        zips = [x for x in T.expr_walk(sx) if x[0] == 'call' and re.search(r'multizip|::zip', x[2])]
+        ok_src = True; why = ''
+        if zips:
+            comps = []
+            for z in zips:
+                for a in z[3]:
+                    if a[0] == 'agg' and a[1] == 'tuple': comps += a[2]
+                    else: comps.append(a)
+            for cx in comps:
+                # each component must be <field>.iter() of self
+                calls_ = [x for x in T.expr_walk(cx) if x[0] == 'call']
+                if any(not ITERISH.search(T.strip_generics_tail(x[2])) for x in calls_) or not any(x[0] == 'place' and x[1] == 1 for x in T.expr_walk(cx)):
+                    ok_src = False; why = T.expr_str(cx)
+        else:
+            fs_, root_, calls_ = T.access_path(body, l[0].args[0], transparent=ITERISH)
+            last_ok = (not calls_) or all(ITERISH.search(T.strip_generics_tail(x)) or x.endswith('::next') for x in calls_)
+            ok_src = last_ok and (root_ == 1 or root_ in next_dsts) and bool(fs_)
+            why = 'path %s via %s' % (fs_, [x.split('::')[-1] for x in calls_])
+        ctx.check(ok_src, R + '.every-term/%s/iterates-message-directly' % short, 'T-LOOPMUST', body.name,
+                  'a loop iterates a derived collection instead of the message\'s own list (%s)' % why, body.site(l[0].bb))
+    # every arithmetic update of the value happens exactly once per looked-up id: in the lookup's own loop
+    def innermost(bb):
+        ls = [l for l in T.for_loops(body) if bb in l[4]]
+        allh = [(h, bl) for h, bl in body.loops().items() if bb in bl]
+        return min(allh, key=lambda x: len(x[1]))[0] if allh else None
+    for c in lookups:
+        lh = innermost(c.bb)
+        for c2 in body.calls:
+            if T.ASSIGN_CALL.match(c2.name):
+                ex2 = T.expr(body, c2.args[1])
+                if any(x[0] == 'call' and x[1] == 'get' and len(x) > 4 and x[4] == c.bb for x in T.expr_walk(ex2)) or (c2.bb in body.reach([c.bb]) and innermost(c2.bb) != lh and lh in [h for h, bl in body.loops().items() if c2.bb in bl]):
+                    ctx.check(innermost(c2.bb) == lh, R + '.fields/%s/one-factor-per-id' % short, 'T-LOOPMUST', body.name,
+                              'a looked-up value is multiplied in inside a nested loop (not exactly once per id)', body.site(c2.bb))
     # ---- accumulator shape: sum = init; sum += coefficient * Π lookup(id)
     sum_l = acc_local(body, vop)
     init, ups = T.accumulator(body, sum_l) if sum_l is not None else ([], [])
